@@ -27,7 +27,7 @@ class Result:
 
 def java_cmd(extra_lib=None, heap='8g', deque=False, props=()):
     libs = [common.SPEC] + ([extra_lib] if extra_lib else [])
-    cmd = ['java', '-XX:+UseParallelGC', '-Xmx' + heap, '-Xss64m', '-DTLA-Library=' + os.pathsep.join(libs)]
+    cmd = ['java', '-XX:+UseParallelGC', '-XX:-UseGCOverheadLimit', '-Xmx' + heap, '-Xss64m', '-DTLA-Library=' + os.pathsep.join(libs)]
     if deque:
         cmd.append('-Dtlc2.tool.queue.IStateQueue=StateDeque')
     cmd += list(props)
